@@ -1,5 +1,6 @@
 import Mieru.Proofs.Arq
 import Mieru.Gen.Facts
+import Mieru.Gen.UdpFacts
 /-!
 # C13 — acks never run ahead of receipt; retransmissions never change content
 
@@ -80,6 +81,62 @@ theorem seq_assignment_lock_discipline :
        ("Session.inputClose", "s.nextSend.Load()", true), ("Session.inputClose", "s.nextSend.Add(1)", true),
        ("Session.closeWithError", "s.nextSend.Load()", true), ("Session.closeWithError", "s.nextSend.Add(1)", true)] := by
   decide
+
+/-- Structural tie (regenerated from session.go): the release loop of the receiver. `nextRecv` advances
+    (one site, `discard_predicate_is_strict`) only behind these guards, in this order: the queue has room;
+    the smallest buffered segment satisfies `seq <= nextRecv`; a stale one (`seq < nextRecv`) is skipped by
+    `continue` WITHOUT advancing; the segment was inserted into recvQueue. Changing the `seq < nextRecv`
+    test or what its branch does changes this list. -/
+theorem receiver_release_guards :
+    (Gen.UdpFacts.recvPathIfs.filter (fun x => x.1 == "Session.moveRecvBufToRecvQueue")) =
+      [("Session.moveRecvBufToRecvQueue", "if s.recvQueue.Remaining() <= 0", "return nil"),
+       ("Session.moveRecvBufToRecvQueue", "return", "return seq <= nextRecv"),
+       ("Session.moveRecvBufToRecvQueue", "if seg == nil || !deleted", "return nil"),
+       ("Session.moveRecvBufToRecvQueue", "if seq < nextRecv", "continue"),
+       ("Session.moveRecvBufToRecvQueue", "if !s.recvQueue.Insert(seg)", "return nil"),
+       ("Session.moveRecvBufToRecvQueue", "if !s.recvBuf.Insert(seg)", "return fmt.Errorf(\"insert %v from receive queue back to receive buffer failed\", seg)"),
+       ("Session.moveRecvBufToRecvQueue", "if ok", "s.remoteWindowSize.Store(uint32(das.windowSize))")] := by decide
+
+/-- Structural tie (regenerated from session.go): every place that writes a field identifying a segment's
+    content. A numbered segment gets its `seq` from `nextSend.Load()` at creation (the pure ack carries
+    `nextSend − 1`, the close request the value read under the same lock), its `fragment` from the loop
+    counter, and its payload is a FRESH buffer (`make`, filled by `copy`), never the caller's slice.
+    There is no other write of `seq`, `fragment`, `payload`, `payloadLen` or `protocol` in session.go. -/
+theorem content_fields_written_at_creation_only :
+    Gen.UdpFacts.contentFieldWrites =
+      [("Session.Write", "protocol", "uint8(openSessionRequest)"),
+       ("Session.Write", "seq", "s.nextSend.Load()"),
+       ("Session.Write", "seg.metadata.(*sessionStruct).payloadLen", "uint16(len(b))"),
+       ("Session.Write", "seg.payload", "make([]byte, len(b))"),
+       ("Session.writeChunk", "protocol", "uint8(protocol)"),
+       ("Session.writeChunk", "seq", "s.nextSend.Load()"),
+       ("Session.writeChunk", "fragment", "uint8(i)"),
+       ("Session.writeChunk", "payloadLen", "payloadLen"),
+       ("Session.writeChunk", "payload", "make([]byte, partLen)"),
+       ("Session.runOutputOncePacket", "baseStruct.protocol", "uint8(ackClientToServer)"),
+       ("Session.runOutputOncePacket", "baseStruct.protocol", "uint8(ackServerToClient)"),
+       ("Session.runOutputOncePacket", "seq", "uint32(mathext.Max(0, int(s.nextSend.Load())-1))"),
+       ("Session.inputData", "protocol", "uint8(openSessionResponse)"),
+       ("Session.inputData", "seq", "s.nextSend.Load()"),
+       ("Session.inputClose", "protocol", "uint8(closeSessionResponse)"),
+       ("Session.inputClose", "seq", "s.nextSend.Load()"),
+       ("Session.inputClose", "payloadLen", "0"),
+       ("Session.closeWithError", "protocol", "uint8(closeSessionRequest)"),
+       ("Session.closeWithError", "seq", "closeRequestSeq")] := by decide
+
+/-- Structural tie (regenerated from session.go): a retransmission re-sends the STORED segment. Inside the
+    retransmission scan the only fields of the segment that are assigned are the bookkeeping ones
+    (`ackCount`, `txCount`, `txTime`, `txTimeout`) and the cumulative ack `das.unAckSeq`; the segment handed
+    to `s.output` is the iterator itself. -/
+theorem retransmission_reuses_stored_segment :
+    Gen.UdpFacts.retransmitClosureWrites =
+      ["nextTX", "err", "closeSessionReason", "satisfyEarlyRetransmission", "hasLoss", "hasTimeout",
+       "iter.ackCount", "iter.txCount++", "iter.txTime", "iter.txTimeout", "das", "_", "das.unAckSeq",
+       "err", "err", "closeSessionReason", "totalTransmissionCount++"] ∧
+    Gen.UdpFacts.outputCalls =
+      [("Session.runOutputOnceStream", "seg"), ("Session.runOutputOncePacket", "iter"),
+       ("Session.runOutputOncePacket", "seg"), ("Session.runOutputOncePacket", "ackSeg"),
+       ("Session.inputClose", "seg2"), ("Session.closeWithError", "seg")] := by decide
 
 /-! ## Non-vacuity -/
 example : ∃ s, Reach 4 s ∧ s.acked = [1] ∧ s.sent.length = 2 := by
